@@ -113,6 +113,9 @@ func builtinJoin(env *lisp.LEnv, args *lisp.LVal) *lisp.LVal {
 		if cell.Type != lisp.LString {
 			return env.Errorf("first argument is not a list of strings: %v", cell.Type)
 		}
+		if msg := env.Runtime.CheckAlloc(buf.Len() + len(cell.Str) + len(sep.Str)); msg != "" {
+			return env.Errorf("%s", msg)
+		}
 		buf.WriteString(cell.Str)
 		if i < len(list.Cells)-1 {
 			buf.WriteString(sep.Str)
